@@ -105,7 +105,9 @@ struct Raw {
 fn raw_kern() -> impl Strategy<Value = RawKern> {
 	(
 		prop_oneof![5 => Just(0u8), 2 => Just(1u8), 2 => Just(2u8)],
-		0u8..MAX_FEE as u8,
+		// 0..3: fees 1..4; 4..7: fees at the top of the kernel's 40-bit fee field (2^39, 2^39-1, 2^40-1 twice), so that
+		// the fees of an aggregate add up to more than one field holds
+		prop_oneof![8 => 0u8..MAX_FEE as u8, 1 => MAX_FEE as u8..MAX_FEE as u8 + 4],
 		prop_oneof![3 => Just(0u8), 1 => 0u8..=15],
 		any::<u16>(),
 		prop_oneof![8 => Just(0u8), 1 => Just(1u8), 1 => Just(2u8)],
@@ -183,7 +185,12 @@ fn resolve(raw: &Raw) -> Case {
 				};
 				KernelSpec {
 					kind,
-					fee: 1 + (k.fee as u64 % MAX_FEE),
+					fee: match k.fee as u64 {
+						f if f < MAX_FEE => 1 + f,
+						f if f == MAX_FEE => 1 << 39,
+						f if f == MAX_FEE + 1 => (1 << 39) - 1,
+						_ => (1 << 40) - 1,
+					},
 					shift: k.shift & 15,
 					lock: match kind {
 						KKind::Plain => 0,
@@ -732,7 +739,7 @@ pub fn check_multiset(ctx: &Ctx, case: &Case, counting: bool) -> PResult {
 	}
 	let txs: Vec<Transaction> = case.txs.iter().map(fast_assemble).collect::<Result<_, _>>()?;
 	for (i, tx) in txs.iter().enumerate() {
-		operand_valid(tx).map_err(|e| Fail::new("harness:operand-invalid", format!("operand {} is not a valid transaction: {}", i, e)))?;
+		operand_valid(tx).map_err(|e| Fail::new("valid-operand-refused", format!("operand {} is not a valid transaction: {}", i, e)))?;
 	}
 	let refs: Vec<&Transaction> = txs.iter().collect();
 	let ex = expect_of(&refs)?;
@@ -894,6 +901,9 @@ pub fn check_multiset(ctx: &Ctx, case: &Case, counting: bool) -> PResult {
 	// ---- evidence
 	if counting {
 		ev.eval();
+		if case.txs.len() >= 2 && case.txs.iter().map(|t| t.fee()).sum::<u64>() >= 1 << 40 {
+			ev.class("multisets_whose_fees_add_up_to_2^40_or_more");
+		}
 		let kinds: Vec<KKind> = case.txs.iter().flat_map(|t| t.kernels.iter().map(|k| k.kind)).collect();
 		let mut kind_counts = [0u8; 3];
 		for k in &kinds {
@@ -978,7 +988,7 @@ fn tx_with_offset(inputs: &[OutRef], outputs: &[OutRef], fee: u64, offset: &Blin
 	let outs: Vec<Output> = outputs.iter().map(|o| LIB.output(o)).collect();
 	let tx = Transaction::new(ins.as_slice().into(), &outs, &[kern]).with_offset(offset.clone());
 	if let Err(e) = tx.validate(Weighting::AsTransaction) {
-		fail!("harness:operand-invalid", "hand-built operand is not valid: {:?}", e);
+		fail!("valid-operand-refused", "hand-built operand is not valid: {:?}", e);
 	}
 	Ok(tx)
 }
@@ -1017,7 +1027,7 @@ pub fn check_cancel(ctx: &Ctx, k: usize, variant: u32, counting: bool) -> PResul
 			.0,
 		);
 		if let Err(e) = txs[i].validate(Weighting::AsTransaction) {
-			fail!("harness:operand-invalid", "operand {} is not valid: {:?}", i, e);
+			fail!("valid-operand-refused", "operand {} is not valid: {:?}", i, e);
 		}
 	}
 	let neg = negate(&txs.iter().map(|t| t.offset.clone()).collect::<Vec<_>>())?;
@@ -1108,7 +1118,7 @@ pub fn check_recreate(ctx: &Ctx, variant: u32, counting: bool) -> PResult {
 		ensure!(spec.balanced(), "harness:recreate", "unbalanced operand {:?}", spec);
 		let tx = assemble(&spec).0;
 		if let Err(e) = tx.validate(Weighting::AsTransaction) {
-			fail!("harness:operand-invalid", "operand is not valid: {:?}", e);
+			fail!("valid-operand-refused", "operand is not valid: {:?}", e);
 		}
 		Ok(tx)
 	};
@@ -1184,7 +1194,7 @@ fn minimal_zero_remainder_case() -> Case {
 pub fn run(ctx: &Ctx) -> HResult<()> {
 	init_global();
 	let ev = &ctx.ev;
-	ev.rule("multisets of 1-6 valid transactions generated by proptest and resolved by construction (outputs drawn without replacement from 64 memoised bulletproof outputs, chained inputs = not-yet-spent outputs of earlier transactions, fresh bare-commitment inputs balance the value; 1-3 kernels per tx of Plain/HeightLocked/NRD with fee shifts, zero or non-zero offset per tx); per multiset: aggregate vs a commitment-set model (kernel multiset, offset sum via libsecp, inputs/outputs = union minus matched pairs both directions, sorted, validates), all permutations (n<=4) or 6 random, every bracketing of the identity and of one random order plus 3 random set partitions, deaggregate of every non-empty proper subset (non-chained multisets only), Block::from_reward -> CompactBlock (From<Block> random nonce + injected chosen nonce) -> hydrate_from for every supply (separate/reordered/single aggregate/every grouping) compared with the block by header hash and bytes | non-trivial = >=1 cut-through pair or >=3 transactions; distinct by (n txs, n cut-through pairs, kernel-variant counts, zero-offset pattern, group sizes of the first random partition)");
+	ev.rule("multisets of 1-6 valid transactions generated by proptest and resolved by construction (outputs drawn without replacement from 64 memoised bulletproof outputs, chained inputs = not-yet-spent outputs of earlier transactions, fresh bare-commitment inputs balance the value; 1-3 kernels per tx of Plain/HeightLocked/NRD with fee shifts and fees 1..4 or, one kernel in nine, at the top of the 40-bit fee field (2^39, 2^39-1, 2^40-1), zero or non-zero offset per tx); per multiset: aggregate vs a commitment-set model (kernel multiset, offset sum via libsecp, inputs/outputs = union minus matched pairs both directions, sorted, validates), all permutations (n<=4) or 6 random, every bracketing of the identity and of one random order plus 3 random set partitions, deaggregate of every non-empty proper subset (non-chained multisets only), Block::from_reward -> CompactBlock (From<Block> random nonce + injected chosen nonce) -> hydrate_from for every supply (separate/reordered/single aggregate/every grouping) compared with the block by header hash and bytes | non-trivial = >=1 cut-through pair or >=3 transactions; distinct by (n txs, n cut-through pairs, kernel-variant counts, zero-offset pattern, group sizes of the first random partition)");
 	ev.assume("operands are built like world::assemble (same kernel keys and world::sign_kernel with its deterministic nonce, derived keys memoised per key index and checked against LIB.commit) and must pass every check of Transaction::validate(AsTransaction) before use (range proof of each distinct library output verified once per child process); libsecp blind_sum is the offset oracle; consensus sort order (by hash) and Hashed are trusted");
 	ev.assume("hydration means Block::hydrate_from over all the block's transactions (what the statement says), not the pool's short-id lookup");
 
